@@ -13,7 +13,7 @@ FILL = 0xAA
 ASAN_LIB = "/usr/lib/x86_64-linux-gnu/libasan.so.8"
 
 
-def _run_chunk(root, cases, workdir, tag, sanitize, timeout):
+def _run_chunk(root, cases, workdir, tag, sanitize, timeout, max_crashes=40):
     """Run one chunk sequentially in a worker; restart after the case that killed the worker."""
     cp = os.path.join(workdir, "cases_%s.json" % tag)
     op = os.path.join(workdir, "out_%s.jsonl" % tag)
@@ -31,7 +31,12 @@ def _run_chunk(root, cases, workdir, tag, sanitize, timeout):
     reports = {}
     guard = 0
     ub = {}
+    ncrash = 0
     while start < len(cases) and guard < 3000:
+        if ncrash >= max_crashes:
+            for i in range(start, len(cases)):
+                results.setdefault(i, ["skipped"])
+            break
         guard += 1
         p = subprocess.run([C.PY, WORKER, root, cp, op] + (["exact"] if sanitize else ["guard"]) + [str(start)],
                            env=env, stdout=subprocess.PIPE, stderr=subprocess.PIPE, timeout=timeout)
@@ -67,6 +72,7 @@ def _run_chunk(root, cases, workdir, tag, sanitize, timeout):
         elif "runtime error" in err:
             kind = "ubsan"
         results[k] = [kind, p.returncode, _first_report_line(err)]
+        ncrash += 1
         start = k + 1
     for i, line in ub.items():
         if results.get(i, ["missing"])[0] in ("ok", "exc"):
@@ -81,7 +87,7 @@ def _first_report_line(err):
     return err.strip()[-300:]
 
 
-def run_real(cases, workdir, sanitize=False, nproc=12, timeout=3000):
+def run_real(cases, workdir, sanitize=False, nproc=12, timeout=3000, max_crashes=40):
     """Results of the real code for every case: ["ok", ...] | ["exc", type, msg] | ["crash"|"asan"|"ubsan", rc, report]."""
     if not cases:
         return []
@@ -96,7 +102,7 @@ def run_real(cases, workdir, sanitize=False, nproc=12, timeout=3000):
 
     def job(kc):
         k, ch = kc
-        return k, _run_chunk(root, ch, workdir, "%s_%d" % (tagbase, k), sanitize, timeout)
+        return k, _run_chunk(root, ch, workdir, "%s_%d" % (tagbase, k), sanitize, timeout, max_crashes)
     with ThreadPoolExecutor(nproc) as ex:
         for k, res in ex.map(job, chunks):
             out[k] = res
